@@ -76,6 +76,10 @@ type DefaultFanController struct {
 
 	// offset applied to the actual minPwm of the fan to ensure "neverStops" constraint
 	minPwmOffset int
+
+	// the last output of the control loop, in the [0..255] range of the curve,
+	// i.e. **before** mapping it to the [minPwm, maxPwm] range of the fan
+	lastLoopOutput *int
 }
 
 func NewFanController(
@@ -454,7 +458,13 @@ func (f *DefaultFanController) calculateTargetPwm() (int, error) {
 	}
 
 	// the target pwm, approaching the actual target smoothly
-	target = f.controlLoop.Cycle(target, lastSetPwm)
+	// Note: the control loop operates in the [0..255] range of the curve, so its previous
+	// output is fed back, not the pwm value that was mapped to the range of the fan
+	current := lastSetPwm
+	if f.lastLoopOutput != nil {
+		current = *f.lastLoopOutput
+	}
+	target = f.controlLoop.Cycle(target, current)
 
 	// ensure target value is within bounds of possible values
 	if target > fans.MaxPwmValue {
@@ -464,6 +474,8 @@ func (f *DefaultFanController) calculateTargetPwm() (int, error) {
 		ui.Warning("Tried to set out-of-bounds PWM value %d on fan %s", target, fan.GetId())
 		target = fans.MinPwmValue
 	}
+	loopOutput := target
+	f.lastLoopOutput = &loopOutput
 
 	// map the target value to the possible range of this fan
 	maxPwm := fan.GetMaxPwm()
